@@ -55,6 +55,11 @@ EXPLANATION = (
     "construction (np.unique / set / range) or the equation is reachable only where a test len(unique(IDX)) vs len(IDX) of that "
     "very list holds — directly or through a flag that can have the required value only there (flags derived from flags, "
     "`or`-combined tests, guard in the caller of an extracted helper included).  "
+    "R11 every `break` out of the pass loop of ComputeGraph._sort_var_updates (which leads to the fallback: remaining equations "
+    "emitted in declaration order, their variables handed in as extra arguments) fires only after a pass that resolved "
+    "nothing: the counters of the stuck test are executed symbolically for four passes as polynomials in the numbers r_j of "
+    "equations resolved per pass, and the break condition of pass j must be unsatisfiable with r_1..r_j >= 1 (counter on the "
+    "pending collection, on a result list, a per-pass difference or a progress flag).  "
     "R4, R7, R3 and R10 look at functions with their private helpers spliced in (engine.inline) whenever the construct and its "
     "guard may have been put into different functions; a construct is then judged at every call site.  "
     "R5 (state layout loops) is implemented as C12-R2 in rules/c12.py and registered here when that module provides it.  "
@@ -2434,3 +2439,276 @@ def r10_indexed_edge_assignment_needs_distinct_targets(ctx, rid):
 
 
 RULES.append(("C01-R10", r10_indexed_edge_assignment_needs_distinct_targets, 1))
+
+
+# ================================================================================================
+# R11 the equation sorter gives up only after a pass that resolved nothing
+# ================================================================================================
+
+def _r11_model(ctx, rid, f):
+    """Recognise the multi-pass sorter: the `while` over the work collection (first parameter), the pass (a `for` directly in
+    its body that removes resolved entries from the work collection), and the collections whose length changes by exactly one
+    per resolved entry."""
+    work = next((p for p in f.params if p != f.self_name), None)
+    whiles = [w for w in walk_shallow(f.node) if isinstance(w, ast.While) and work in load_ids(w.test)
+              and not any(isinstance(a, (ast.While, ast.For)) for a in _anc(w))]
+    if len(whiles) != 1:
+        raise AnalysisError(f"{rid}: {f.qual}: expected one `while` loop over the pending equations, found {len(whiles)}")
+    W = whiles[0]
+
+    def removal(n) -> bool:
+        return (isinstance(n, ast.Call) and isinstance(n.func, ast.Attribute) and n.func.attr in ("pop", "remove", "discard")
+                and isinstance(n.func.value, ast.Name) and n.func.value.id == work) or \
+               (isinstance(n, ast.Delete) and any(isinstance(t, ast.Subscript) and isinstance(t.value, ast.Name) and t.value.id == work
+                                                  for t in n.targets))
+    passes = [p for p in W.body if isinstance(p, (ast.For, ast.While)) and any(removal(n) for n in ast.walk(p))]
+    other = [n for st in W.body if st not in passes for n in ast.walk(st) if removal(n)]
+    if len(passes) != 1 or other:
+        raise AnalysisError(f"{rid}: {f.qual}: expected one pass over the pending equations inside `{norm(W)}` that removes the resolved ones")
+    P = passes[0]
+    rem = [n for n in ast.walk(P) if removal(n)]
+    if len(rem) != 1:
+        raise AnalysisError(f"{rid}: {f.qual}: the pass removes resolved equations at {len(rem)} places (expected one)")
+    rst = stmt_of(ctx.cfg(f), rem[0])
+    block = next((blk for a in [P] + [x for x in ast.walk(P)] for blk in (getattr(a, "body", None), getattr(a, "orelse", None))
+                  if isinstance(blk, list) and rst in blk), None)
+    if block is None or any(isinstance(a, (ast.For, ast.While)) and a is not P for a in _anc(rst) if contains(P, a)):
+        raise AnalysisError(f"{rid}: {f.qual}: the removal `{norm(rst)}` is nested in an inner loop of the pass (unrecognised)")
+    # collections that change by one per resolved equation: in the statement block of the removal, unconditionally
+    delta: Dict[str, int] = {work: -1}
+    for st in block:
+        if isinstance(st, ast.Expr) and isinstance(st.value, ast.Call) and isinstance(st.value.func, ast.Attribute) \
+                and isinstance(st.value.func.value, ast.Name):
+            nm, attr = st.value.func.value.id, st.value.func.attr
+            if attr == "append" and nm != work:
+                delta[nm] = delta.get(nm, 0) + 1
+            elif attr in ("pop", "remove") and nm != work:
+                delta[nm] = delta.get(nm, 0) - 1
+        elif isinstance(st, ast.Assign) and isinstance(st.value, ast.Call) and isinstance(st.value.func, ast.Attribute) \
+                and isinstance(st.value.func.value, ast.Name) and st.value.func.attr == "pop" and st.value.func.value.id != work:
+            delta[st.value.func.value.id] = delta.get(st.value.func.value.id, 0) - 1
+    # a collection that is also changed anywhere else inside the outer loop is not a progress measure
+    for nm in list(delta):
+        if nm == work:
+            continue
+        muts = [n for n in ast.walk(W) if isinstance(n, ast.Call) and isinstance(n.func, ast.Attribute) and isinstance(n.func.value, ast.Name)
+                and n.func.value.id == nm and n.func.attr in ("append", "extend", "insert", "pop", "remove", "clear")]
+        if any(stmt_of(ctx.cfg(f), m) not in block for m in muts) or \
+                any(isinstance(n, ast.Name) and n.id == nm and isinstance(n.ctx, ast.Store) for n in ast.walk(W)):
+            del delta[nm]
+    flags = {t.id for st in block if isinstance(st, ast.Assign) and isinstance(st.value, ast.Constant) and st.value.value is True
+             for t in st.targets if isinstance(t, ast.Name)}
+    return W, P, delta, flags
+
+
+def r11_sorter_gives_up_only_without_progress(ctx, rid):
+    """ComputeGraph._sort_var_updates sorts the algebraic equations in passes; when a pass resolves nothing the remaining
+    equations are declared mutually dependent, emitted in declaration order and their variables become extra function arguments
+    (stale values).  Necessary: every `break` out of the pass loop is a true no-progress test — with r_j the number of equations
+    resolved in pass j, the break condition of pass j is equivalent to r_j == 0 for j = 1, 2, 3, 4 (counters executed
+    symbolically as polynomials in N, r_1, …, r_4).  A test that mixes in the counts of earlier passes gives up although the
+    pass made progress."""
+    import sympy as sp
+    f0 = ctx.repo.get_func(CG, "ComputeGraph._sort_var_updates")
+    f = f0
+    W, P, delta, flags = _r11_model(ctx, rid, f)
+    N = sp.Symbol("N", integer=True, positive=True)
+    NP = 4
+    r = [None] + [sp.Symbol(f"r{j}", integer=True, nonnegative=True) for j in range(1, NP + 1)]
+    len0: Dict[str, object] = {}
+    work = next(p for p in f.params if p != f.self_name)
+
+    def initial_len(nm):
+        if nm not in len0:
+            if nm == work:
+                len0[nm] = N
+            else:
+                defs = ctx.rd(f).defs_reaching_at(W, nm)
+                vals = [assigned_value(d, nm) for d in defs if not isinstance(d, ast.arguments)]
+                empty = len(defs) == 1 and len(vals) == 1 and isinstance(vals[0], (ast.List, ast.Tuple, ast.Dict)) and \
+                    not (getattr(vals[0], "elts", None) or getattr(vals[0], "keys", None))
+                len0[nm] = sp.Integer(0) if empty else sp.Symbol(f"len0_{nm}", integer=True, nonnegative=True)
+        return len0[nm]
+    done = [sp.Integer(0)]          # number of equations resolved so far
+
+    class Flag:
+        def __init__(self, j, base):
+            self.j, self.base = j, base
+
+    def ev(e, env):
+        if isinstance(e, ast.Constant) and isinstance(e.value, bool):
+            return e.value
+        if isinstance(e, ast.Constant) and isinstance(e.value, int):
+            return sp.Integer(e.value)
+        if isinstance(e, ast.Name):
+            if e.id in env:
+                return env[e.id]
+            raise AnalysisError(f"{rid}: {f.qual}: `{e.id}` is read by the stuck test but its value is not a counter that was followed")
+        if isinstance(e, ast.Call) and call_name(e) == "len" and len(e.args) == 1:
+            a = e.args[0]
+            while isinstance(a, ast.Call) and ((isinstance(a.func, ast.Attribute) and a.func.attr in ("keys", "values", "items", "copy") and not a.args)
+                                               or (isinstance(a.func, ast.Name) and a.func.id in ("list", "tuple", "dict", "set") and len(a.args) == 1)):
+                a = a.func.value if isinstance(a.func, ast.Attribute) else a.args[0]
+            if isinstance(a, ast.Name) and a.id in delta:
+                return initial_len(a.id) + delta[a.id] * done[0]
+            raise AnalysisError(f"{rid}: {f.qual}: `{ast.unparse(e)}` is not the length of a collection that changes by one per resolved equation")
+        if isinstance(e, ast.BinOp) and isinstance(e.op, (ast.Add, ast.Sub, ast.Mult)):
+            l, rr = ev(e.left, env), ev(e.right, env)
+            if isinstance(l, (bool, Flag)) or isinstance(rr, (bool, Flag)):
+                raise AnalysisError(f"{rid}: {f.qual}: arithmetic on a flag in `{ast.unparse(e)}`")
+            return l + rr if isinstance(e.op, ast.Add) else (l - rr if isinstance(e.op, ast.Sub) else l * rr)
+        if isinstance(e, ast.UnaryOp) and isinstance(e.op, ast.USub):
+            return -ev(e.operand, env)
+        raise AnalysisError(f"{rid}: {f.qual}: `{ast.unparse(e)}` in the stuck test is not understood")
+
+    def assign(st, env):
+        if isinstance(st, ast.Assign) and len(st.targets) == 1:
+            t, v = st.targets[0], st.value
+            if isinstance(t, ast.Name):
+                try:
+                    env[t.id] = ev(v, env)
+                except AnalysisError:
+                    env.pop(t.id, None)
+                return
+            if isinstance(t, (ast.Tuple, ast.List)) and isinstance(v, (ast.Tuple, ast.List)) and len(t.elts) == len(v.elts):
+                vals = []
+                for x in v.elts:
+                    try:
+                        vals.append(ev(x, env))
+                    except AnalysisError:
+                        vals.append(None)
+                for te, val in zip(t.elts, vals):
+                    if isinstance(te, ast.Name):
+                        if val is None:
+                            env.pop(te.id, None)
+                        else:
+                            env[te.id] = val
+                return
+            for nm in target_names(t):
+                env.pop(nm, None)
+        elif isinstance(st, ast.AugAssign) and isinstance(st.target, ast.Name):
+            try:
+                cur, v = ev(st.target, env), ev(st.value, env)
+                if isinstance(cur, (bool, Flag)) or isinstance(v, (bool, Flag)):
+                    raise AnalysisError("flag")
+                env[st.target.id] = cur + v if isinstance(st.op, ast.Add) else (cur - v if isinstance(st.op, ast.Sub) else None)
+                if env[st.target.id] is None:
+                    env.pop(st.target.id)
+            except AnalysisError:
+                env.pop(st.target.id, None)
+    # ---- counters before the loop: the straight-line statements that precede it in its block
+    env: Dict[str, object] = {}
+    holder = parent(W)
+    siblings = next(blk for blk in (getattr(holder, "body", []), getattr(holder, "orelse", [])) if W in blk)
+    for st in siblings[:siblings.index(W)]:
+        if isinstance(st, (ast.Assign, ast.AugAssign)):
+            assign(st, env)
+    breaks = [b for b in ast.walk(W) if isinstance(b, ast.Break) and not contains(P, b)
+              and next(a for a in _anc(b) if isinstance(a, (ast.While, ast.For))) is W]
+    if not breaks:
+        raise AnalysisError(f"{rid}: {f.qual}: no `break` out of `{norm(W)}` found (the stuck test vanished or has an unrecognised form)")
+    findings: Dict[ast.AST, list] = {}
+
+    def run(stmts, env, j) -> bool:
+        """Execute the statements of one iteration on the path that does not break; False when the iteration ended."""
+        env["__pass__"] = j
+        for st in stmts:
+            if st is P:
+                done[0] = done[0] + r[j]
+                for fl in flags:
+                    env[fl] = Flag(j, env.get(fl))
+            elif isinstance(st, (ast.Assign, ast.AugAssign)):
+                assign(st, env)
+            elif isinstance(st, ast.If):
+                has_break = any(b for b in breaks if contains(st, b))
+                if not has_break:
+                    if any(isinstance(n, ast.Name) and isinstance(n.ctx, ast.Store) and n.id in env for n in ast.walk(st)):
+                        raise AnalysisError(f"{rid}: {f.qual}: a counter of the stuck test is updated under `{norm(st)}` (unrecognised)")
+                    continue
+                in_body = any(contains(x, b) or x is b for b in breaks for x in st.body)
+                in_else = any(contains(x, b) or x is b for b in breaks for x in st.orelse)
+                brk_branch = st.body if in_body else st.orelse
+                if (in_body and in_else) or not (len(brk_branch) >= 1 and isinstance(brk_branch[-1], ast.Break)
+                                                 and not any(isinstance(x, (ast.If, ast.For, ast.While)) for x in brk_branch)):
+                    raise AnalysisError(f"{rid}: {f.qual}: the stuck test `{norm(st)}` has an unrecognised shape")
+                findings.setdefault(st, []).append((j, _r11_condition(ctx, rid, f, st.test, in_body, env, ev, Flag)))
+                if not run(st.orelse if in_body else st.body, env, j):
+                    return False
+            elif isinstance(st, ast.Break):
+                raise AnalysisError(f"{rid}: {f.qual}: unconditional `break` in `{norm(W)}`")
+            elif isinstance(st, (ast.Continue, ast.Return)):
+                return False
+            elif isinstance(st, (ast.For, ast.While, ast.Try, ast.With)):
+                if any(isinstance(n, ast.Name) and isinstance(n.ctx, ast.Store) and n.id in env for n in ast.walk(st)):
+                    raise AnalysisError(f"{rid}: {f.qual}: a counter of the stuck test is updated inside `{norm(st)}` (unrecognised)")
+        return True
+    for j in range(1, NP + 1):
+        run(W.body, env, j)
+    for st, per_pass in sorted(findings.items(), key=lambda kv: kv[0].lineno):
+        facts = {"stuck_test": norm(st), "per_pass": {f"pass {j}": txt for j, (ok_, txt) in per_pass},
+                 "progress_collections": {k: v for k, v in sorted(delta.items())}}
+        bad = [(j, txt) for j, (ok_, txt) in per_pass if not ok_]
+        label = "the sorter gives up only after a pass without progress"
+        if bad:
+            j, txt = bad[0]
+            ctx.violation(rid, f0, st,
+                          f"`{norm(st)}` is not a no-progress test: in pass {j} it breaks when {txt} (r_k = number of equations resolved "
+                          f"in pass k), which can hold although pass {j} resolved equations; the sorter then declares the remaining "
+                          f"equations mutually dependent, emits them in declaration order and hands their variables in as extra "
+                          f"arguments with stale values", facts, label=label)
+        else:
+            ctx.ok(rid, f0, st, f"in each of the first {NP} passes `{norm(st)}` breaks only when the pass resolved no equation "
+                                f"({'; '.join(f'pass {j}: {txt}' for j, (_o, txt) in per_pass)})", facts, label=label)
+    ctx.require(findings, f"{rid}: {f.qual}: no stuck test was reached by the symbolic execution of `{norm(W)}`")
+
+
+def _r11_condition(ctx, rid, f, test, breaks_when_true: bool, env, ev, Flag):
+    """(is the break condition equivalent to r_j == 0?, text of the condition) for the current pass."""
+    import sympy as sp
+    pol = breaks_when_true
+    while isinstance(test, ast.UnaryOp) and isinstance(test.op, ast.Not):
+        test, pol = test.operand, not pol
+    # flag form: `if not progressed: break`
+    if isinstance(test, ast.Name) and isinstance(env.get(test.id), Flag):
+        fl = env[test.id]
+        if pol:         # breaks when the flag is true = when the pass resolved something
+            return False, f"r{fl.j} > 0"
+        return True, f"r{fl.j} == 0" + ("" if fl.base is False else " (and the flag was not set earlier)")
+    if not (isinstance(test, ast.Compare) and len(test.ops) == 1):
+        raise AnalysisError(f"{rid}: {f.qual}: the stuck test `{ast.unparse(test)}` is not a comparison of counters")
+    l, rr = ev(test.left, env), ev(test.comparators[0], env)
+    if isinstance(l, (bool, Flag)) or isinstance(rr, (bool, Flag)):
+        raise AnalysisError(f"{rid}: {f.qual}: the stuck test `{ast.unparse(test)}` compares a flag")
+    D = sp.expand(l - rr)
+    op = type(test.ops[0])
+    if not pol:
+        op = {ast.Eq: ast.NotEq, ast.NotEq: ast.Eq, ast.Lt: ast.GtE, ast.GtE: ast.Lt, ast.Gt: ast.LtE, ast.LtE: ast.Gt}.get(op)
+    sym = {ast.Eq: "==", ast.NotEq: "!=", ast.Lt: "<", ast.LtE: "<=", ast.Gt: ">", ast.GtE: ">="}.get(op)
+    if sym is None:
+        raise AnalysisError(f"{rid}: {f.qual}: comparison operator of `{ast.unparse(test)}` not understood")
+    text = f"{D} {sym} 0"
+    rs = sorted((x for x in D.free_symbols if x.name.startswith("r") and x.name[1:].isdigit()), key=lambda x: int(x.name[1:]))
+    others = [x for x in D.free_symbols if x not in rs]
+    if others:
+        raise AnalysisError(f"{rid}: {f.qual}: the stuck test `{ast.unparse(test)}` reads {text}, which depends on more than the "
+                            f"numbers of equations resolved per pass (unrecognised)")
+    # the current pass is the highest one that has run; earlier passes made progress (otherwise the loop had been left)
+    import itertools
+    j = env.get("__pass__")
+    cur = sp.Symbol(f"r{j}", integer=True, nonnegative=True)
+    earlier = [x for x in rs if x != cur]
+    cmp = {ast.Eq: lambda v: v == 0, ast.NotEq: lambda v: v != 0, ast.Lt: lambda v: v < 0, ast.LtE: lambda v: v <= 0,
+           ast.Gt: lambda v: v > 0, ast.GtE: lambda v: v >= 0}[op]
+    witness = None
+    for vals in itertools.product((1, 2, 3), repeat=len(earlier) + 1):
+        sub = dict(zip(earlier + [cur], vals))
+        if cmp(int(D.subs(sub))):
+            witness = sub
+            break
+    if witness is not None:
+        return False, text + " — e.g. " + ", ".join(f"{k} = {v}" for k, v in sorted(witness.items(), key=lambda kv: str(kv[0])))
+    fires = any(cmp(int(D.subs(dict(zip(earlier + [cur], vals + (0,)))))) for vals in itertools.product((1, 2, 3), repeat=len(earlier)))
+    return True, (f"{text} only if r{j} == 0" if fires else f"{text} never holds while passes make progress")
+
+
+RULES.append(("C01-R11", r11_sorter_gives_up_only_without_progress, 1))
